@@ -472,6 +472,20 @@ def absorb (env : Env) (z : Zone) (frm to : Int) (curr : Interval) (st : ItState
 termination_by itMeasure (instDay to) st
 decreasing_by exact nextKept_measure h
 
+/-- first item of the filtered and merged stream over `iter_range_naive(nf, nt)`, bounds not yet
+mapped: `let mut curr = naive_ranges.next()?; while let Some(next) = … { … }` -/
+def firstMergedG (env : Env) (z : Zone) (nf nt : Int) : M (Option Interval) :=
+  match itNew env (min instEnd nf) (min instEnd nt) with
+  | .error p => .error p
+  | .ok st =>
+    match nextKept env z (min instEnd nf) (min instEnd nt) st with
+    | .error p => .error p
+    | .ok none => .ok none
+    | .ok (some (curr, st')) =>
+      match absorb env z (min instEnd nf) (min instEnd nt) curr st' with
+      | .error p => .error p
+      | .ok c => .ok (some c)
+
 /-- first item of `iter_range(from, to)` -/
 def firstIntervalTzG (env : Env) (z : Zone) (frm to : Int) : M (Option Interval) :=
   match naiveChecked z frm with
@@ -480,19 +494,13 @@ def firstIntervalTzG (env : Env) (z : Zone) (frm to : Int) : M (Option Interval)
     match naiveChecked z to with
     | .error p => .error p
     | .ok nt =>
-      match itNew env (min instEnd nf) (min instEnd nt) with
+      match firstMergedG env z (min instEnd nf) (min instEnd nt) with
       | .error p => .error p
-      | .ok st =>
-        match nextKept env z (min instEnd nf) (min instEnd nt) st with
+      | .ok none => .ok none
+      | .ok (some c) =>
+        match mapInterval z c with
         | .error p => .error p
-        | .ok none => .ok none
-        | .ok (some (curr, st')) =>
-          match absorb env z (min instEnd nf) (min instEnd nt) curr st' with
-          | .error p => .error p
-          | .ok c =>
-            match mapInterval z c with
-            | .error p => .error p
-            | .ok x => .ok (some x)
+        | .ok x => .ok (some x)
 
 /-- `iter_from(from)` collected: `iter_range(from, locale.datetime(DATE_END))` -/
 def iterFromTzG (env : Env) (z : Zone) (frm : Int) : M (List Interval) :=
